@@ -189,7 +189,7 @@ pub fn items(tier: Tier) -> Vec<Item> {
         }
     }
     // R8 placeholders on a unit variant
-    for l in ["a {x}", "{0}", "{}", "{x:>4}", "{{}} {y}"] {
+    for l in ["a {x}", "{0}", "{}", "{x:>4}", "{{}} {y}", "→{0}", "日本é{x}é", "é{}", "{x}→{y}"] {
         for pos in positions(th) {
             add("unit-placeholder", "Display", format!("Display: to_string = {:?} on a unit variant at {}", l, pos), en("Display", "", "", &place(&format!("#[strum(to_string = {:?})] X", l), pos)), false);
         }
@@ -200,6 +200,7 @@ pub fn items(tier: Tier) -> Vec<Item> {
             add("unit-placeholder", "Display", format!("Display: {} on a unit variant at {}", attr, pos), en("Display", "", "", &place(&format!("#[strum({})] X", attr), pos)), false);
         }
     }
+    add("unit-placeholder", "Display", "control: multi-byte text before a placeholder on a tuple variant".into(), en("Display", "", "", &place("#[strum(to_string = \"→{0}é\")] X(u8)", 1)), true);
     add("unit-placeholder", "Display", "control: escaped braces on a unit variant".into(), en("Display", "", "", &place("#[strum(to_string = \"a {{x}}\")] X", 1)), true);
     add("unit-placeholder", "Display", "control: placeholder on a named variant".into(), en("Display", "", "", &place("#[strum(to_string = \"a {x}\")] X { x: u8 }", 1)), true);
     // R9 unknown serialize_all style
